@@ -48,33 +48,32 @@ Proof.
   f_equal. f_equal. lia.
 Qed.
 
-Definition year_range (pad : bool) (y : Z) : Prop :=
-  if pad then (1 <= y <= 9999)%Z else (1000 <= y <= 9999)%Z.
-
-Lemma year_str_4 pad y : year_range pad y -> year_str pad y = dec4 y.
+(* ------------------------------------------------------------------ the text http_date builds *)
+(* interpreting the regenerated format strings gives the RFC 1123 layout with a four-digit year *)
+Lemma rfc1123_eq t :
+  rfc1123 t = directive "a" t ++ ", " ++ directive "d" t ++ " " ++ directive "b" t ++ " "
+              ++ dec4 (year_of (ord_of t)) ++ " "
+              ++ directive "H" t ++ ":" ++ directive "M" t ++ ":" ++ directive "S" t ++ " GMT".
 Proof.
-  unfold year_range. destruct pad; simpl; [reflexivity|]. intro H. unfold dec_year.
-  destruct (y <? 10)%Z eqn:E1; [apply Z.ltb_lt in E1; lia|].
-  destruct (y <? 100)%Z eqn:E2; [apply Z.ltb_lt in E2; lia|].
-  destruct (y <? 1000)%Z eqn:E3; [apply Z.ltb_lt in E3; lia|]. reflexivity.
+  unfold rfc1123, K_strftime_prefix, K_year_format, K_strftime_suffix.
+  cbn [strftime Ascii.eqb Bool.eqb format_year String.eqb].
+  repeat progress (rewrite ?sapp_assoc; cbn [append]). reflexivity.
+Qed.
+
+Lemma year_in_range t : (min_t <= t <= max_t)%Z -> (1 <= year_of (ord_of t) <= 9999)%Z.
+Proof.
+  unfold ord_of, min_t, max_t. intro H.
+  apply year_of_bounds. change (ordinal 1 1 1) with 1%Z. change (ordinal (9999 + 1) 1 1) with 3652060%Z. lia.
 Qed.
 
 (* ------------------------------------------------------------------ RFC 1123 round trip *)
-Lemma year_ok_year pad t : year_ok pad t -> year_range pad (year_of (ord_of t)).
+Lemma parse_rfc1123_rfc1123 t : (min_t <= t <= max_t)%Z -> parse_rfc1123 (rfc1123 t) = Some t.
 Proof.
-  unfold year_ok, year_range, ord_of, min_t, max_t. destruct pad; intro H.
-  - apply year_of_bounds. change (ordinal 1 1 1) with 1%Z. change (ordinal (9999 + 1) 1 1) with 3652060%Z.
-    lia.
-  - apply year_of_bounds. change (ordinal (9999 + 1) 1 1) with 3652060%Z.
-    change (ordinal 1000 1 1) with 364878%Z in *. lia.
-Qed.
-
-Lemma parse_rfc1123_rfc1123 pad t : year_ok pad t -> parse_rfc1123 (rfc1123 pad t) = Some t.
-Proof.
-  intro Hy. pose proof (year_ok_year _ _ Hy) as Hyear.
-  unfold rfc1123. unfold year_of in Hyear.
+  intro Hy. pose proof (year_in_range _ Hy) as Hyear.
+  rewrite rfc1123_eq. unfold directive. unfold year_of in *.
   pose proof (civil_spec (ord_of t)) as Hc.
-  destruct (civil (ord_of t)) as [[y m] d] eqn:Ec. simpl in Hyear. destruct Hc as [Hv Ho].
+  destruct (civil (ord_of t)) as [[y m] d] eqn:Ec. cbn [fst snd] in *. destruct Hc as [Hv Ho].
+  cbn [Ascii.eqb Bool.eqb].
   assert (Hv' := Hv). unfold valid_date in Hv'.
   repeat (apply andb_true_iff in Hv'; destruct Hv' as [Hv' ?]).
   repeat match goal with H1 : (_ <=? _)%Z = true |- _ => apply Z.leb_le in H1 end.
@@ -82,7 +81,6 @@ Proof.
   pose proof (weekday_range (ord_of t)) as Hw.
   assert (Hd99 : (0 <= d <= 99)%Z).
   { pose proof (days_in_month_le_max y m). pose proof (max_days_in_month_le_31 m). lia. }
-  assert (Hy4 : (0 <= y <= 9999)%Z) by (unfold year_range in Hyear; destruct pad; lia).
   unfold parse_rfc1123.
   rewrite take_day_name by lia. cbn [obind].
   rewrite strip_prefix_app. cbn [obind].
@@ -90,7 +88,6 @@ Proof.
   rewrite strip_prefix_app. cbn [obind].
   rewrite take_month_name by lia. cbn [obind].
   rewrite strip_prefix_app. cbn [obind].
-  rewrite (year_str_4 pad y Hyear).
   rewrite take_dec4 by lia. cbn [obind].
   rewrite strip_prefix_app. cbn [obind].
   rewrite take_dec2 by lia. cbn [obind].
@@ -105,7 +102,7 @@ Proof.
   replace (100 * 0 + minute_of t)%Z with (minute_of t) by lia.
   replace (100 * 0 + second_of t)%Z with (second_of t) by lia.
   rewrite Hv.
-  assert (E1 : (1 <=? y)%Z = true) by (apply Z.leb_le; unfold year_range in Hyear; destruct pad; lia).
+  assert (E1 : (1 <=? y)%Z = true) by (apply Z.leb_le; lia).
   assert (E2 : (hour_of t <=? 23)%Z = true) by (apply Z.leb_le; lia).
   assert (E3 : (minute_of t <=? 59)%Z = true) by (apply Z.leb_le; lia).
   assert (E4 : (second_of t <=? 59)%Z = true) by (apply Z.leb_le; lia).
@@ -114,18 +111,18 @@ Proof.
 Qed.
 
 (* ------------------------------------------------------------------ http_date / parse_http_date *)
-Lemma year_ok_in_range pad t : year_ok pad t -> in_range t = true.
+Lemma in_range_iff t : in_range t = true <-> (min_t <= t <= max_t)%Z.
+Proof. unfold in_range. rewrite andb_true_iff, !Z.leb_le. tauto. Qed.
+
+Lemma roundtrip_aware zn z a : in_range (instant a) = true ->
+  res_bind (http_date a) (parse_http_date zn z) = astimezone zn z (instant a).
 Proof.
-  unfold year_ok, in_range, min_t, max_t. destruct pad; intro H; apply andb_true_iff; split; apply Z.leb_le;
-    try lia. change (ordinal 1000 1 1) with 364878%Z in H. lia.
+  intro H. unfold http_date. rewrite H. simpl.
+  unfold parse_http_date. rewrite parse_rfc1123_rfc1123; [reflexivity|now apply in_range_iff].
 Qed.
 
-Lemma roundtrip_aware pad zn z a : year_ok pad (instant a) ->
-  res_bind (http_date pad a) (parse_http_date zn z) = astimezone zn z (instant a).
-Proof.
-  intro H. unfold http_date. rewrite (year_ok_in_range _ _ H). simpl.
-  unfold parse_http_date. now rewrite parse_rfc1123_rfc1123.
-Qed.
+Lemma http_date_overflow a : in_range (instant a) = false -> http_date a = Err "OverflowError".
+Proof. intro H. unfold http_date. now rewrite H. Qed.
 
 Lemma astimezone_spec zn z u a : astimezone zn z u = Ok a ->
   instant a = u /\ a_off a = z u /\ a_zone a = zn /\ in_range (a_local a) = true.
@@ -139,9 +136,9 @@ Lemma astimezone_ok zn z u : in_range (u + z u) = true ->
 Proof. unfold astimezone. now intros ->. Qed.
 
 (* formatting and parsing back in the datetime's own zone gives the datetime back *)
-Lemma roundtrip_identity pad z a : year_ok pad (instant a) ->
+Lemma roundtrip_identity z a : in_range (instant a) = true ->
   a_off a = z (instant a) -> in_range (a_local a) = true ->
-  res_bind (http_date pad a) (parse_http_date (a_zone a) z) = Ok a.
+  res_bind (http_date a) (parse_http_date (a_zone a) z) = Ok a.
 Proof.
   intros H Hoff Hr. rewrite roundtrip_aware by assumption.
   unfold astimezone. rewrite <- Hoff.
@@ -149,25 +146,18 @@ Proof.
   rewrite Hr. destruct a; reflexivity.
 Qed.
 
-(* the witness of the open finding: 0999-06-15 12:30:45 UTC *)
+(* the witness of the defect fixed in 87c5f78 (0999-06-15 12:30:45 UTC) now round-trips *)
 Definition a999 : aware := {| a_local := (364678 * 86400 + 12 * 3600 + 30 * 60 + 45)%Z; a_off := 0; a_zone := "UTC" |}.
 
-Lemma roundtrip_unpadded_fails :
-  in_range (instant a999) = true /\
-  http_date false a999 = Ok "Sat, 15 Jun 999 12:30:45 GMT" /\
-  forall zn z, res_bind (http_date false a999) (parse_http_date zn z) = Err "ValueError".
-Proof.
-  split; [reflexivity|]. split; [vm_compute; reflexivity|].
-  intros zn z. assert (E : http_date false a999 = Ok "Sat, 15 Jun 999 12:30:45 GMT") by (vm_compute; reflexivity).
-  rewrite E. simpl res_bind. unfold parse_http_date.
-  assert (P : parse_rfc1123 "Sat, 15 Jun 999 12:30:45 GMT" = None) by (vm_compute; reflexivity).
-  now rewrite P.
-Qed.
+Lemma year_999_roundtrips :
+  http_date a999 = Ok "Sat, 15 Jun 0999 12:30:45 GMT" /\
+  res_bind (http_date a999) (parse_http_date "UTC" (fun _ => 0%Z)) = Ok a999.
+Proof. split; vm_compute; reflexivity. Qed.
 
 (* a served (RFC-correct) timestamp becomes an aware datetime of the same instant in the given zone *)
 Lemma parse_served zn z u : (min_t <= u <= max_t)%Z ->
-  parse_http_date zn z (rfc1123 true u) = astimezone zn z u.
-Proof. intro H. unfold parse_http_date. now rewrite (parse_rfc1123_rfc1123 true u H). Qed.
+  parse_http_date zn z (rfc1123 u) = astimezone zn z u.
+Proof. intro H. unfold parse_http_date. now rewrite (parse_rfc1123_rfc1123 u H). Qed.
 
 Lemma parse_http_date_spec zn z s a : parse_http_date zn z s = Ok a ->
   exists u, parse_rfc1123 s = Some u /\ instant a = u /\ a_off a = z u /\ a_zone a = zn.
@@ -385,19 +375,20 @@ Proof.
 Qed.
 
 (* get_sessions_by_time: the where clause carries the RFC-1123 text of the bounds *)
-Lemma by_time_cond pad start stop : year_ok pad (instant start) -> year_ok pad (instant stop) ->
-  time_cond pad (Some start) (Some stop) None =
-  Ok ("connectionTime >= """ ++ rfc1123 pad (instant start) ++ """ and connectionTime <= """
-      ++ rfc1123 pad (instant stop) ++ """").
+Lemma by_time_cond start stop : in_range (instant start) = true -> in_range (instant stop) = true ->
+  time_cond (Some start) (Some stop) None =
+  Ok ("connectionTime >= """ ++ rfc1123 (instant start) ++ """ and connectionTime <= """
+      ++ rfc1123 (instant stop) ++ """").
 Proof.
   intros H1 H2. unfold time_cond, http_date.
-  rewrite (year_ok_in_range _ _ H1), (year_ok_in_range _ _ H2). cbn [res_map res_bind app join].
+  rewrite H1, H2. cbn [res_map res_bind app join].
   f_equal. repeat progress (rewrite ?sapp_assoc; cbn [append]). reflexivity.
 Qed.
 
 (* the literals regenerated from the code are the ones the model was written for *)
 Lemma client_literals :
-  K_strftime_format = rfc1123_format /\ K_strptime_format = rfc1123_format /\
+  (K_strftime_prefix ++ "%Y" ++ K_strftime_suffix = rfc1123_format /\ K_year_format = "%04d") /\
+  K_strptime_format = rfc1123_format /\
   K_valid_sites = ["caltech"; "jpl"; "office001"] /\ K_site_error = "ValueError" /\
   K_endpoint = "sessions/" /\ K_ts_suffix = "/ts/" /\ K_limit = "100" /\ K_limit_ts = "1" /\
   K_arg_cond = "where=" /\ K_arg_project = "project=" /\ K_arg_sort = "sort=" /\
